@@ -32,6 +32,7 @@ const (
 	tyErr
 	tyBytes
 	tyPtr
+	tyF64 // a float64, carried as its bit pattern (a uint64 value on the Lean side)
 )
 
 // functions translated, in dependency order (callees first is not required)
@@ -40,6 +41,7 @@ var goSrcFuncs = []string{
 	"Iter.PeekNext", "Iter.PeekNextTag",
 	"Iter.SetFloat", "Iter.SetInt", "Iter.SetUInt", "Iter.SetBool", "Iter.SetNull", "Iter.SetStringBytes",
 	"ParsedJson.stringByteAt", "Iter.StringBytes", "Iter.Bool", "Object.NextElementBytes",
+	"Iter.Float", "Iter.FloatFlags", "Iter.Int", "Iter.Uint",
 }
 
 type goBlock struct {
@@ -91,6 +93,7 @@ func ptrKind(e ast.Expr) (string, bool) {
 }
 
 type gsTr struct {
+	outer  map[string]gty    // variables of the enclosing scopes (at the entry of the innermost block)
 	kinds  map[string]string // struct-typed names (receiver, pointer parameters, locals) → kind
 	named  []string          // named results, in order
 	nameTy map[string]gty
@@ -124,7 +127,9 @@ func tyOfTypeExpr(e ast.Expr) gty {
 		case "error":
 			return tyErr
 		case "float64":
-			return tyU64 // a float64 is carried as its bit pattern; only Float64bits / Float64frombits may touch it
+			return tyF64
+		case "FloatFlags":
+			return tyU64
 		}
 	case *ast.ArrayType:
 		if t.Len == nil {
@@ -312,6 +317,11 @@ func (t *gsTr) expr(e ast.Expr, want gty) (string, gty) {
 		}
 		gsDie(e, "identifier")
 	case *ast.SelectorExpr:
+		if pk, ok := x.X.(*ast.Ident); ok && pk.Name == "math" {
+			if v, ok := mathConsts[x.Sel.Name]; ok {
+				return t.untyped(e, v, want)
+			}
+		}
 		if ty, ok := t.frees[nows(src(e))]; ok {
 			return fmt.Sprintf("(.v %s)", strconv.Quote(nows(src(e)))), ty
 		}
@@ -395,8 +405,27 @@ func (t *gsTr) expr(e ast.Expr, want gty) (string, gty) {
 				}
 				gsDie(e, "len of")
 			}
-			if ty := tyOfTypeExpr(id); ty == tyInt || ty == tyU64 || ty == tyU8 {
-				a, aty := t.expr(x.Args[0], ty)
+			if ty := tyOfTypeExpr(id); ty == tyInt || ty == tyU64 || ty == tyU8 || ty == tyF64 {
+				wantA := ty
+				if ty == tyF64 {
+					wantA = tyUnk
+				}
+				if _, aty0 := t.exprTry(x.Args[0]); aty0 == tyF64 {
+					wantA = tyF64
+				}
+				a, aty := t.expr(x.Args[0], wantA)
+				switch {
+				case ty == tyF64 && aty == tyInt:
+					return fmt.Sprintf("(.i2f %s)", a), tyF64
+				case ty == tyF64 && aty == tyU64:
+					return fmt.Sprintf("(.u2f %s)", a), tyF64
+				case ty == tyInt && aty == tyF64 && id.Name == "int64":
+					return fmt.Sprintf("(.f2i %s)", a), tyInt
+				case ty == tyU64 && aty == tyF64 && id.Name == "uint64":
+					return fmt.Sprintf("(.f2u %s)", a), tyU64
+				case ty == tyF64 || aty == tyF64:
+					gsDie(e, "float conversion")
+				}
 				if aty != tyInt && aty != tyU64 && aty != tyU8 {
 					gsDie(e, "conversion operand")
 				}
@@ -404,11 +433,15 @@ func (t *gsTr) expr(e ast.Expr, want gty) (string, gty) {
 			}
 		}
 		if f := nows(src(x.Fun)); (f == "math.Float64bits" || f == "math.Float64frombits") && len(x.Args) == 1 {
-			a, aty := t.expr(x.Args[0], tyU64)
-			if aty != tyU64 {
+			from, to := tyF64, tyU64
+			if f == "math.Float64frombits" {
+				from, to = tyU64, tyF64
+			}
+			a, aty := t.expr(x.Args[0], from)
+			if aty != from {
 				gsDie(e, "float bits operand")
 			}
-			return a, tyU64
+			return a, to // same value on the Lean side: a float64 is carried as its bits
 		}
 		if id, ok := x.Fun.(*ast.Ident); ok && id.Name == "append" && len(x.Args) == 2 && x.Ellipsis.IsValid() {
 			a, aty := t.expr(x.Args[0], tyBytes)
@@ -450,6 +483,46 @@ func (t *gsTr) expr(e ast.Expr, want gty) (string, gty) {
 	}
 	gsDie(e, "expression")
 	return "", tyUnk
+}
+
+// exprTry translates a plain variable and reports its type; anything else reports tyUnk without aborting
+func (t *gsTr) exprTry(e ast.Expr) (string, gty) {
+	if id, ok := e.(*ast.Ident); ok {
+		if ty, ok := t.locals[id.Name]; ok {
+			return fmt.Sprintf("(.v %s)", strconv.Quote(id.Name)), ty
+		}
+	}
+	return "", tyUnk
+}
+
+// constInt: the value of an untyped integer constant expression
+func (t *gsTr) constInt(e ast.Expr) string {
+	switch x := e.(type) {
+	case *ast.ParenExpr:
+		return t.constInt(x.X)
+	case *ast.BasicLit:
+		v, ok := new(big.Int).SetString(x.Value, 0)
+		if !ok {
+			gsDie(e, "literal")
+		}
+		return v.String()
+	case *ast.UnaryExpr:
+		if x.Op == token.SUB {
+			return "-" + t.constInt(x.X)
+		}
+	case *ast.SelectorExpr:
+		if pk, ok := x.X.(*ast.Ident); ok && pk.Name == "math" {
+			if v, ok := mathConsts[x.Sel.Name]; ok {
+				return v
+			}
+		}
+	case *ast.Ident:
+		if _, ok := t.p.cexprs[x.Name]; ok {
+			return t.p.constVal(x.Name).String()
+		}
+	}
+	gsDie(e, "constant")
+	return ""
 }
 
 // exprMaybe translates e if it is a byte-slice valued variable or global; otherwise reports tyUnk without aborting
@@ -495,6 +568,11 @@ func (t *gsTr) untyped(e ast.Expr, v string, want gty) (string, gty) {
 		return fmt.Sprintf("(.u64 %s)", v), tyU64
 	case tyU8:
 		return fmt.Sprintf("(.u8 %s)", v), tyU8
+	case tyF64:
+		if v == "0" {
+			return "(.u64 0 /- 0.0 -/)", tyF64
+		}
+		gsDie(e, "non-zero constant in float64 context")
 	}
 	gsDie(e, "untyped constant without a typed context")
 	return "", tyUnk
@@ -502,6 +580,11 @@ func (t *gsTr) untyped(e ast.Expr, v string, want gty) (string, gty) {
 
 func isUntypedConst(t *gsTr, e ast.Expr) bool {
 	switch x := e.(type) {
+	case *ast.SelectorExpr:
+		if pk, ok := x.X.(*ast.Ident); ok && pk.Name == "math" {
+			_, ok := mathConsts[x.Sel.Name]
+			return ok
+		}
 	case *ast.ParenExpr:
 		return isUntypedConst(t, x.X)
 	case *ast.BasicLit:
@@ -555,6 +638,12 @@ func (t *gsTr) binary(x *ast.BinaryExpr, want gty) (string, gty) {
 			if b, ok := x.Y.(*ast.Ident); ok && t.iters[b.Name] && (x.Op == token.EQL || x.Op == token.NEQ) {
 				return fmt.Sprintf("(.v %s)", strconv.Quote(a.Name+x.Op.String()+b.Name)), tyBool
 			}
+		}
+	}
+	if isCmp && isUntypedConst(t, x.Y) && !isUntypedConst(t, x.X) {
+		if a, at := t.exprTry(x.X); at == tyF64 {
+			k := t.constInt(x.Y)
+			return fmt.Sprintf("(.fcmpK %s %s %s)", name, a, leanInt(k)), tyBool
 		}
 	}
 	var a, b string
@@ -698,6 +787,21 @@ func (t *gsTr) lvalue(e ast.Expr) (string, gty) {
 }
 
 func (t *gsTr) block(list []ast.Stmt, ind string) string {
+	// lexical scoping: what a block defines with := is gone at its end (sibling blocks may reuse a name with another
+	// type); shadowing a variable of an enclosing scope is outside the subset (the store has one slot per name)
+	saved := map[string]gty{}
+	for k, v := range t.locals {
+		saved[k] = v
+	}
+	prevOuter := t.outer
+	t.outer = saved
+	defer func() {
+		t.locals = map[string]gty{}
+		for k, v := range saved {
+			t.locals[k] = v
+		}
+		t.outer = prevOuter
+	}()
 	var parts []string
 	for _, s := range list {
 		parts = append(parts, t.stmt(s, ind+"  "))
@@ -724,6 +828,9 @@ func (t *gsTr) stmt(s ast.Stmt, ind string) string {
 							continue
 						}
 						if id, isId := l.(*ast.Ident); isId && x.Tok == token.DEFINE {
+							if _, shadow := t.outer[id.Name]; shadow {
+								gsDie(s, "definition shadows a variable of an enclosing scope")
+							}
 							if old, had := t.locals[id.Name]; had && old != rtys[k] {
 								gsDie(s, "variable redefined with another type")
 							}
@@ -767,8 +874,11 @@ func (t *gsTr) stmt(s ast.Stmt, ind string) string {
 				dw = tyInt // the default type of an untyped integer constant
 			}
 			r, ty := t.expr(x.Rhs[0], dw)
-			if ty != tyInt && ty != tyU64 && ty != tyU8 && ty != tyBool && ty != tyBytes {
+			if ty != tyInt && ty != tyU64 && ty != tyU8 && ty != tyBool && ty != tyBytes && ty != tyF64 {
 				gsDie(s, "type of defined variable")
+			}
+			if _, shadow := t.outer[id.Name]; shadow {
+				gsDie(s, "definition shadows a variable of an enclosing scope")
 			}
 			if old, ok := t.locals[id.Name]; ok && old != ty {
 				gsDie(s, "variable redefined with another type")
@@ -1126,7 +1236,7 @@ func genGoSrc(p *pkgInfo, out string) {
 					continue
 				}
 				ty := tyOfTypeExpr(f.Type)
-				if ty != tyInt && ty != tyU64 && ty != tyU8 && ty != tyBool && ty != tyBytes {
+				if ty != tyInt && ty != tyU64 && ty != tyU8 && ty != tyBool && ty != tyBytes && ty != tyF64 {
 					die("gosrc: %s: parameter %s has an unsupported type", fn, nm.Name)
 				}
 				t.locals[nm.Name] = ty
